@@ -1,5 +1,6 @@
 import Driver.Util
 import HeimdallModel.Spec.Signer
+import HeimdallModel.Model.SignerCache
 -- @family signer
 /-! Line-protocol family `signer`: jwt finalizers over key store files, token creation, JWKS reads, reloads (C16) -/
 open Lean Heimdall Heimdall.Signer
@@ -120,34 +121,101 @@ structure Stats where
   fractionalTtl : Nat := 0
   algs : List String := []
 
-def signOp (hs : Array (Option Holder)) (op : Json) (stats : Stats) : E (Json × Stats) := do
-  let some (some h) := hs[← nat op "h"]? | pure (Json.mkObj [("skip", jstr "no holder")], stats)
+/-- the process-wide token cache of a case that has one, and for every stored entry which operation issued it with
+which TTL (bookkeeping of the driver: the model's tokens do not say which call made them) -/
+structure CacheSt where
+  on     : Bool := false
+  tickNs : Int := 0
+  cache  : Cache Json := []
+  shadow : List (CacheKey × Nat × Int) := []
+  hits   : Nat := 0
+  stores : Nat := 0
+  misses : Nat := 0
+  crossVariantMisses : Nat := 0
+  duringReload : Nat := 0
+
+def signOp (pol : KeyPolicy) (keys : Array PrivKey) (hs : Array (Option Holder)) (op : Json) (idx : Nat) (stats : Stats)
+    (cs : CacheSt) :
+    E (Json × Stats × CacheSt × Array (Option Holder)) := do
+  let hi ← nat op "h"
+  let some (some h) := hs[hi]? | pure (Json.mkObj [("skip", jstr "no holder")], stats, cs, hs)
   let ov := fldD op "ov" .null
   let fin? ← (match ov with
     | .null => pure (some h.fin)
     | _ => do pure (h.fin.withConfig (← optInt ov "ttl_ns") (← optNat ov "tpl")))
-  let some fin := fin? | pure (Json.mkObj [("err", jstr "override:configuration")], stats)
-  let fail := (Json.mkObj [("err", jstr "internal")], { stats with signErrors := stats.signErrors + 1 })
+  let some fin := fin? | pure (Json.mkObj [("err", jstr "override:configuration")], stats, cs, hs)
+  let fail := (Json.mkObj [("err", jstr "internal")], { stats with signErrors := stats.signErrors + 1 }, cs, hs)
   if isNull op "sub" then pure fail else
   -- the rendered claims template (rendering itself is not modelled: the generator supplies what the template yields)
   let custom? ← (match fin.claims with
     | none => pure (some [])
     | some t => do parseCustom (fldD (← fld op "renders") (toString t) .null))
-  let some custom := custom? | pure fail
-  let inp : SignIn := ⟨← str op "sub", h.iss, 0, fin.ttlNs⟩
-  let tok := sign h.st inp custom
-  let pub := published ((live hs).map (·.st))
+  let sub ← str op "sub"
+  -- "inside": the key store of this finalizer is reloaded while Execute runs, after the cache key has been calculated
+  let inside := fldD op "inside" .null
+  let file? ← (match inside with
+    | .null => pure none
+    | _ => do pure (some (← parseFile keys (fldD inside "raw" .null))))
+  let stAfter := match file? with
+    | none => h.st
+    | some f => reload h.keyID h.st f
+  let hs' := hs.set! hi (some { h with st := stAfter })
+  let mut stats := stats
+  if let some f := file? then
+    stats := if (loadFile h.keyID f).isSome then { stats with reloadsOk := stats.reloadsOk + 1 }
+             else { stats with reloadsFailed := stats.reloadsFailed + 1 }
+  -- `Execute`: without a cache in the context every call signs; with one, lookup / sign / store (`Model/SignerCache.lean`)
+  let mut cs := cs
+  let mut tok? : Option (Token Json) := none
+  let mut issuedTtl := fin.ttlNs
+  let mut extra : List (String × Json) := []
+  if cs.on then
+    let now := cs.tickNs * (Int.ofNat (natD op "at" 0))
+    let x : Exec := ⟨0, fin, ⟨sub, (fldD op "attrs" .null).compress⟩, (fldD op "outputs" .null).compress, now, now, now⟩
+    let rec_ : SignerRec := ⟨h.keyID, h.iss, h.st⟩
+    let recAfter : SignerRec := ⟨h.keyID, h.iss, stAfter⟩
+    let key := keyOf rec_ x
+    let storeKey := if pol.underSigning then keyOf recAfter x else key
+    let w : World Json := ⟨[rec_], cs.cache⟩
+    let r := match file? with
+      | none => executeK pol (fun _ _ _ => custom?) w x
+      | some f => executeDuringK pol (fun _ _ _ => custom?) w x f
+    match r with
+    | none => tok? := none
+    | some (t, .cached, _) =>
+      let (from_, ttl) := ((cs.shadow.find? (fun e => e.1 = key)).map (·.2)).getD (idx, fin.ttlNs)
+      tok? := some t
+      issuedTtl := ttl
+      extra := [("from", jnat from_)]
+      cs := { cs with hits := cs.hits + 1 }
+    | some (t, .fresh, w') =>
+      let stored := decide (leewayNs < fin.ttlNs)
+      -- the same subject, signer, outputs and template is cached under another TTL: the entries must not be shared
+      let cross := cs.shadow.any (fun e => decide (dropTtl.norm e.1 = dropTtl.norm key) && decide (e.1 ≠ key)
+        && (cs.cache.get e.1 now).isSome)
+      tok? := some t
+      extra := [("from", jnat idx)]
+      cs := { cs with cache := w'.cache, misses := cs.misses + 1, stores := cs.stores + (if stored then 1 else 0),
+                      crossVariantMisses := cs.crossVariantMisses + (if cross then 1 else 0),
+                      duringReload := cs.duringReload + (if file?.isSome then 1 else 0),
+                      shadow := if stored then (storeKey, idx, fin.ttlNs) :: cs.shadow.filter (fun e => e.1 ≠ storeKey)
+                                else cs.shadow }
+  else
+    tok? := custom?.map (fun custom => sign stAfter ⟨sub, h.iss, 0, fin.ttlNs⟩ custom)
+  let some tok := tok? | pure (fail.1, { stats with signErrors := stats.signErrors + 1 }, cs, hs')
+  let custom := custom?.getD []
+  let pub := published ((live hs').map (·.st))
   let named := (custom.filter (fun kv => reserved.contains kv.1)).length
   let vf := verifiesFirst pub tok
-  let res := Json.mkObj [
+  let res := Json.mkObj ([
     ("upstream_headers", jstrs [fin.headerName]), ("scheme", jstr fin.scheme),
     ("hdr", Json.mkObj [("kid", jstr tok.kid), ("alg", jstr tok.alg), ("typ", jstr tok.typ), ("extra", jarr [])]),
-    ("claims", claimsJson fin.ttlNs tok.claims), ("signed_by", jnat tok.signedBy.pub.pid),
-    ("verify_first", Json.bool vf), ("verify_any", Json.bool (verifiesAny pub tok))]
+    ("claims", claimsJson issuedTtl tok.claims), ("signed_by", jnat tok.signedBy.pub.pid),
+    ("verify_first", Json.bool vf), ("verify_any", Json.bool (verifiesAny pub tok))] ++ extra)
   pure (res, { stats with tokens := stats.tokens + 1, reservedNamed := stats.reservedNamed + named,
                           clashes := stats.clashes + (if vf then 0 else 1),
                           fractionalTtl := stats.fractionalTtl + (if fin.ttlNs % 1000000000 = 0 then 0 else 1),
-                          algs := if stats.algs.contains tok.alg then stats.algs else stats.algs ++ [tok.alg] })
+                          algs := if stats.algs.contains tok.alg then stats.algs else stats.algs ++ [tok.alg] }, cs, hs')
 
 def run (c : Json) : E Json := do
   let keys ← parseKeys c
@@ -157,12 +225,24 @@ def run (c : Json) : E Json := do
   let created := hs.toList.map (fun h => jstr (if h.isSome then "ok" else "fail"))
   let mut out : List Json := []
   let mut stats : Stats := {}
+  let cj := fldD c "cache" .null
+  let mut cs : CacheSt := match cj with
+    | .null => {}
+    | _ => { on := true, tickNs := Int.ofNat (natD cj "tick_ms" 0) * 1000000 }
+  -- "policy": "lookup_key" asks for the behaviour of the code before fixes/C16-1 (a token signed while the key store
+  -- was reloaded is stored under the key calculated for the lookup); the default is the model the theorems are about
+  let pol : KeyPolicy := if strD c "policy" "" = "lookup_key" then lookupKey else {}
+  let mut idx := 0
   for op in ← arr c "ops" do
+    idx := idx + 1
     match ← str op "op" with
     | "sign" =>
-      let (r, s') ← signOp hs op stats
+      let (r, s', cs', hs') ← signOp pol keys hs op (idx - 1) stats cs
       stats := s'
+      cs := cs'
+      hs := hs'
       out := out ++ [r]
+    | "sleep" => out := out ++ [jstr "slept"]
     | "jwks" =>
       stats := { stats with jwksReads := stats.jwksReads + 1,
                             publishedKeys := stats.publishedKeys + (published ((live hs).map (·.st))).length }
@@ -192,6 +272,9 @@ def run (c : Json) : E Json := do
     ("reloads_failed", jnat stats.reloadsFailed), ("jwks_reads", jnat stats.jwksReads),
     ("published_keys", jnat stats.publishedKeys), ("first_match_clashes", jnat stats.clashes),
     ("fractional_ttl_tokens", jnat stats.fractionalTtl), ("algs", jstrs stats.algs),
-    ("holders_created", jnat (live hs).length), ("holders_failed", jnat (hs.size - (live hs).length))])])
+    ("holders_created", jnat (live hs).length), ("holders_failed", jnat (hs.size - (live hs).length)),
+    ("cache_cases", jnat (if cs.on then 1 else 0)), ("cache_hits", jnat cs.hits), ("cache_misses", jnat cs.misses),
+    ("cache_stores", jnat cs.stores), ("cache_cross_variant_misses", jnat cs.crossVariantMisses),
+    ("cache_stores_during_reload", jnat cs.duringReload)])])
 
 end Driver.Signer
